@@ -23,7 +23,7 @@ one canonical form of constructs that maintainers routinely rewrite into each ot
   S7  T i = a; while (c(i)) { body; ++i; } (no continue, i dead afterwards) -> for (T i = a; c(i); ++i) body
   S4  a void function body / a loop body that ends with `if (a && b) { X }` -> `if (!a) return / continue; if (!b) ...; X` (guard-clause form)
   S8  if (a > b) a = b; -> a = min(a, b); if (a < b) a = b; -> a = max(a, b)   (integers)
-  E11 x * 2^K -> x << K, unsigned x / 2^K -> x >> K, unsigned x % 2^K -> x & (2^K - 1) ;  E12 2 * i -> i * 2 ;  E17 (x & A) | (x & B) -> x & (A | B) ;  E15 const integral local initialised with a literal / named constant reads as that value ;  E14 !(a && b) -> !a || !b ;  E13 X.empty() -> X.size() == 0 (std containers) ;  S13b if (c) f |= v; -> f |= c ? v : 0 ;  S16 T x; x = e; -> T x = e ;  S18 while (c1) { if (c2) break; B } -> while (c1 && !c2) { B } ;  S17 T x = a; x |= b; -> T x = a | b ;  S15 pointer cursor over [B, B+N) -> index loop over B ;  S10 if (c) x = a; else x = b; -> x = c ? a : b ;  S13 if (c) b = true; -> b |= c ; if (c) b = false; -> b &= !c  (bool b)
+  E11 x * 2^K -> x << K, unsigned x / 2^K -> x >> K, unsigned x % 2^K -> x & (2^K - 1) ;  E12 2 * i -> i * 2 ;  E17 (x & A) | (x & B) -> x & (A | B) ;  E18 named floating constant -> its value ;  E15 const integral local initialised with a literal / named constant reads as that value ;  E14 !(a && b) -> !a || !b ;  E13 X.empty() -> X.size() == 0 (std containers) ;  S13b if (c) f |= v; -> f |= c ? v : 0 ;  S16 T x; x = e; -> T x = e ;  S18 while (c1) { if (c2) break; B } -> while (c1 && !c2) { B } ;  S17 T x = a; x |= b; -> T x = a | b ;  S15 pointer cursor over [B, B+N) -> index loop over B ;  S10 if (c) x = a; else x = b; -> x = c ? a : b ;  S13 if (c) b = true; -> b |= c ; if (c) b = false; -> b &= !c  (bool b)
   S14 `T x = a; if (c) x = b;` -> `T x = c ? b : a;`   (a a plain read)
   S12 `if (ok) return; throw X;` at the end of a void function -> `if (!ok) throw X;`
   S5  `while (c) body` and `for (; c; ) body` are both exported as For nodes with empty init / increment
@@ -184,6 +184,9 @@ def norm_expr(e):
         if isinstance(v, (dict, list)):
             e[k] = norm_expr(v)
     k = e.get("k")
+    if k in ("Ref", "Member") and "fv" in e and (e.get("dk") == "global" or e.get("isstatic")):
+        # E18: a named floating constant (const, namespace or class scope) reads as its value
+        return {"k": "Float", "f": e["fv"], "t": e.get("t"), "sz": e.get("sz"), "loc": e.get("loc"), "named": e.get("n") or e.get("f")}
     if k == "Member" and isinstance(e.get("b"), dict):
         # E8: (*p).f == p->f (built-in and iterator / smart-pointer dereference alike): the base becomes p
         b = _strip(e["b"])
